@@ -39,7 +39,7 @@ FUNCTIONS_ENCODED = [
 ]
 BOUNDS = {
     "quick": {"keys": 3, "paths": 2, "capacity": "any int >= 1 (symbolic)", "values": "unbounded ints or None per key (symbolic)", "step": "all 38 pre-states over 3 keys (any present subset x any recency order of any cached subset, |cache|<=cap) x 16 path tables x 5 ops x 3 keys, plus a store_blob that the underlying store refuses (OSError)", "sequences": "every sequence of exactly 3 ops (prefixes are checked at every step) from the empty state", "cache_objects": "None, bool, any int, str, float"},
-    "thorough": {"keys": 3, "paths": 2, "capacity": "any int >= 1 (symbolic)", "values": "unbounded ints or None per key (symbolic)", "step": "as quick", "sequences": "every sequence of 4 ops from the empty state, partitioned by the first three opcodes", "cache_objects": "None, bool, any int, str, float"},
+    "thorough": {"order": "the whole quick tier first, then the deeper queries below as far as the wall budget of the tier allows (the evidence lists what was not run)", "keys": 3, "paths": 2, "capacity": "any int >= 1 (symbolic)", "values": "unbounded ints or None per key (symbolic)", "step": "as quick", "sequences": "every sequence of 4 ops from the empty state, partitioned by the first three opcodes", "cache_objects": "None, bool, any int, str, float"},
 }
 OUTSIDE = ["more than 3 keys / 2 paths", "a key stored with two different values (content-addressed use is assumed)", "inner stores other than MemoryStore in this module (LocalFileStore under the cache is exercised by C04/C16 harnesses)", "weak-reference liveness of evicted objects (the bound is checked on the cache's own table)"]
 ASSUMPTIONS = [
@@ -48,6 +48,7 @@ ASSUMPTIONS = [
 ]
 STUBBED_NAMES = None
 BUDGET_S = {"thorough": 1500}  # wall budget of the thorough tier: queries not started by then are reported as not run
+THOROUGH_INCLUDES_QUICK = True  # thorough = the quick queries first, then the deeper ones within the wall budget
 LAST_DETAIL = [""]
 
 
